@@ -9,7 +9,7 @@ note = sys.argv[3] if len(sys.argv) > 3 else ""
 TEMPLATE = """You are a software engineer helping to evaluate a verification effort by SEEDING realistic defects. You work in a scratch git worktree of the Python project "codelimit" (a CLI that lexes source files with Pygments, finds function definitions with a small token-regex NFA/DFA engine, and reports function-length metrics) at: /tmp/wt_{id}
 
 Rules:
-- Work ONLY inside /tmp/wt_{id} and in the output directory /tmp/mut_{id} (create it). Do NOT read, list or touch /verif or /repo or anything under /root/.vp. Do not use git commands other than `git -C /tmp/wt_{id} diff`, `git -C /tmp/wt_{id} stash`, `git -C /tmp/wt_{id} checkout -- .` inside the worktree.
+- Work ONLY inside /tmp/wt_{id} and in the output directory /tmp/mut_{id} (create it). Do NOT read, list or touch /verif or /repo or anything under /root/.vp. Do not use git commands other than `git -C /tmp/wt_{id} diff` and `git -C /tmp/wt_{id} checkout -- .` inside the worktree (never `git stash`: the stash is shared with other engineers' worktrees).
 - Run the project's test suite with: `cd /tmp/wt_{id} && PYTHONPATH=/tmp/wt_{id} /venv/bin/python -m pytest -q -p no:cacheprovider` (157 tests pass on the unchanged tree). Run your own demo scripts with `cd /tmp/wt_{id} && PYTHONPATH=/tmp/wt_{id} /venv/bin/python demo.py` so that the worktree's code is imported (check `codelimit.__file__` starts with /tmp/wt_{id}).
 
 The property under study (it holds on the unchanged tree):
@@ -27,11 +27,11 @@ Your task: produce TWO independent, realistic code changes ("mutants") to the co
 
 For each mutant k in {{{k1},{k2}}} (the files are numbered {k1} and {k2}):
 1. apply the change in the worktree, run the full test suite (must be 157 passed),
-2. write a small demonstration `/tmp/mut_{id}/demo_k.py` (a standalone script using only the codelimit package and the standard library; it must exit 0 and print "PROPERTY HOLDS" when the property holds on its scenario and exit 1 and print "PROPERTY VIOLATED: <what>" when it is violated); verify it prints VIOLATED with the change and HOLDS without it (use `git stash` / `git stash pop`, or checkout),
+2. write a small demonstration `/tmp/mut_{id}/demo_k.py` (a standalone script using only the codelimit package and the standard library; it must exit 0 and print "PROPERTY HOLDS" when the property holds on its scenario and exit 1 and print "PROPERTY VIOLATED: <what>" when it is violated); verify it prints VIOLATED with the change and HOLDS without it (save the diff to a file, `git -C /tmp/wt_{id} checkout -- .`, run the demo, then re-apply with `patch -p1 < file` if needed),
 3. save the change as `/tmp/mut_{id}/mutant_k.diff` (`git -C /tmp/wt_{id} diff > /tmp/mut_{id}/mutant_k.diff`), then restore the worktree to the unchanged state (`git -C /tmp/wt_{id} checkout -- .`) before starting the next mutant,
 4. write `/tmp/mut_{id}/meta_k.json` with keys: "property" (the id), "summary" (one sentence: what was changed), "needs" (what specific input / sequence / condition makes it manifest), "files" (list of touched files), "tests": "157 passed".
 
-Leave the worktree clean at the end (also drop any stash you created). Report: for each mutant the one-sentence summary, what it needs to manifest, and the exact commands you ran to confirm (test suite with the change; demo with and without the change).
+Leave the worktree clean at the end. Report: for each mutant the one-sentence summary, what it needs to manifest, and the exact commands you ran to confirm (test suite with the change; demo with and without the change).
 """
 for line in open("/verif/properties.jsonl"):
     d = json.loads(line)
